@@ -164,11 +164,83 @@ def patch_condition(m, x, y, r):
     return sum(v for row in P for v in row), sum(abs(v) for row in P for v in row)
 
 
+def patch_values_p(m, x, y, p):
+    """The p x p values integral regression sees for integral_patch_size p (exact): the
+    integer-centred window for odd p; for even p the bilinear samples at half-pixel
+    positions = mean of the 2x2 cells around each sample, 0 outside the map."""
+    if p % 2:
+        return patch_values(m, x, y, p // 2)
+    H, W, h = len(m), len(m[0]), p // 2
+    c = lambda i, j: m[i][j] if 0 <= i < H and 0 <= j < W else F(0)
+    return [[(c(y + i - 1, x + j - 1) + c(y + i - 1, x + j) + c(y + i, x + j - 1) + c(y + i, x + j)) / 4
+             for j in range(-h + 1, h + 1)] for i in range(-h + 1, h + 1)]
+
+
+def patch_condition_p(m, x, y, p):
+    """(sum, sum of |.|) of the sampled p x p patch: used only to scale the float tolerance."""
+    P = patch_values_p(m, x, y, p)
+    return sum(v for row in P for v in row), sum(abs(v) for row in P for v in row)
+
+
+def gen_patch_size(rng):
+    """integral_patch_size: odd and even sizes alike (p >= 2; see notes/C06.md for p = 1)."""
+    return rng.choice([2, 3, 3, 4, 5, 5, 6, 7])
+
+
+DTYPES = ["float32"] * 8 + ["float64", "float16"]
+
+
+def gen_dtype(rng, cms=None, refine=False):
+    """Input dtype: mostly float32; float64 and float16 are accepted by every function here
+    (generated values are k/8 or k/4 with |v| <= 16: exact in float16 too).  One exception,
+    kept out of the stream and logged as an observation by the checks: float16 maps with a
+    singleton axis (H = 1 or W = 1) make kornia's crop_and_resize raise (its normalisation
+    epsilon 1e-14 is 0 in float16), so integral refinement of such maps is float32/float64 only."""
+    dt = rng.choice(DTYPES)
+    if dt == "float16" and refine and cms is not None and (len(cms[0][0]) == 1 or len(cms[0][0][0]) == 1):
+        dt = "float64"
+    return dt
+
+
+def tol_scale(dtype):
+    """Refined coordinates: float16 crops carry 2^-11 relative error (and float16 sums)."""
+    return 400.0 if dtype == "float16" else 1.0
+
+
+def with_nans(rng, cms):
+    """A copy of the batch (as nested float lists) with 1..3 NaN cells; returns (floats, cells)."""
+    fl = [[[[float(v) for v in row] for row in m] for m in smp] for smp in cms]
+    B, C, H, W = len(cms), len(cms[0]), len(cms[0][0]), len(cms[0][0][0])
+    cells = set()
+    for _ in range(rng.randint(1, 3)):
+        cells.add((rng.randrange(B), rng.randrange(C), rng.randrange(H), rng.randrange(W)))
+    for (s, c, y, x) in cells:
+        fl[s][c][y][x] = float("nan")
+    return fl, sorted(cells)
+
+
+def strict_local_maxima_ieee(m, thr):
+    """As strict_local_maxima, on a float map that may hold NaN, with IEEE comparisons: a
+    cell is reported iff v > thr and v > w for every in-bounds neighbour w (both false when
+    either side is NaN)."""
+    H, W = len(m), len(m[0])
+    out = []
+    for y in range(H):
+        for x in range(W):
+            v = m[y][x]
+            if not v > thr:
+                continue
+            if all(v > m[y + dy][x + dx] for dy in (-1, 0, 1) for dx in (-1, 0, 1)
+                   if (dy or dx) and 0 <= y + dy < H and 0 <= x + dx < W):
+                out.append((x, y, v))
+    return out
+
+
 def all_3x3_maps(values=(0, 1, 2)):
     for t in itertools.product(values, repeat=9):
         yield [[F(t[0]), F(t[1]), F(t[2])], [F(t[3]), F(t[4]), F(t[5])], [F(t[6]), F(t[7]), F(t[8])]]
 
 
-def to_tensor(cms, torch):
+def to_tensor(cms, torch, dtype="float32"):
     return torch.tensor([[[[float(v) for v in row] for row in m] for m in smp] for smp in cms],
-                        dtype=torch.float32)
+                        dtype=getattr(torch, dtype))
